@@ -233,6 +233,12 @@ func genRandomFamily(r *plan.Rng, quick bool) plan.StreamFamily {
 	f := plan.StreamFamily{T: t}
 	for k := 0; k < nparts; k++ {
 		doc := stdDoc(ti, int64(r.U64()>>8))
+		if r.Chance(1, 8) {
+			doc = escapeKey(doc, r)
+		}
+		if r.Chance(1, 10) {
+			doc = dupKeys(doc, stdDoc(ti, int64(r.U64()>>8)))
+		}
 		if r.Chance(1, 5) {
 			doc = mutate(doc, r)
 		}
